@@ -88,18 +88,25 @@ def run_one(sh, case, driver='generated'):
         delays[poollog.sig_key(units[int(u)])] = 0.03 * rank
     res = None
     api = case.get('api', 'func')
+    import sys
+    fake = os.path.join(os.path.dirname(os.path.dirname(os.path.abspath(__file__))), 'fake_tqdm')
+    use_fake = bool(case.get('fake_tqdm')) and case.get('progress') is not None
+    for m in [m for m in sys.modules if m == 'tqdm' or m.startswith('tqdm.')]:
+        del sys.modules[m]
+    if use_fake:
+        sys.path.insert(0, fake)
     with poollog.Session(os.environ.get('BCVERIF_WORK', '/tmp'), delays) as ses:
         try:
             with quiet():
                 if api == 'func':
                     res = compute_features_3d(np.array(sigs, copy=True), fs, fr, compute_features_kwargs=copy.deepcopy(kw),
-                                              axis=axis, return_samples=rs, n_jobs=case['n_jobs'])
+                                              axis=axis, return_samples=rs, n_jobs=case['n_jobs'], progress=case.get('progress'))
                 else:
                     o = copy.deepcopy(kw) or {}
                     bg = BycycleGroup(center_extrema=o.get('center_extrema', 'peak'), burst_method=o.get('burst_method', 'cycles'),
                                       burst_kwargs=o.get('burst_kwargs'), thresholds=o.get('threshold_kwargs'),
                                       find_extrema_kwargs=o.get('find_extrema_kwargs'), return_samples=rs)
-                    bg.fit(np.array(sigs, copy=True), fs, fr, axis=axis, n_jobs=case['n_jobs'])
+                    bg.fit(np.array(sigs, copy=True), fs, fr, axis=axis, n_jobs=case['n_jobs'], progress=case.get('progress'))
                     res = bg.df_features
                     for i in range(n0):
                         for j in range(n1):
@@ -116,6 +123,8 @@ def run_one(sh, case, driver='generated'):
         except Exception as e:
             vs.append({'mechanism': attach.exc_mechanism(e), 'message': 'group call raised %r' % (e,)})
         events = ses.events()
+    if use_fake:
+        sys.path.remove(fake)
     if res is not None:
         if ambiguous:
             sh.note('ambiguous_cell_accepted')
@@ -160,9 +169,10 @@ def run_one(sh, case, driver='generated'):
     sh.note('cell:shape=%dx%d' % (n0, n1))
     sh.note('cell:axis=%s:kwargs=%s' % (axis, kind))
     sh.note('n_jobs=%s' % case['n_jobs'])
+    sh.note('progress=%s' % case.get('progress'))
     sh.note('api=' + api)
     nt = res is not None and (n0 != n1 or (n0 > 1 and n1 > 1))
-    sample = {k: case[k] for k in ('fs', 'f_range', 'axis', 'kw_kind', 'n_jobs', 'return_samples')}
+    sample = {k: case.get(k) for k in ('fs', 'f_range', 'axis', 'kw_kind', 'n_jobs', 'return_samples', 'progress')}
     sample['sigs'] = 'array%s' % (list(sigs.shape),)
     sh.case_done(case, nt, sample=sample)
 
@@ -211,7 +221,8 @@ def make_case(rng, shape=None, axis=None, kind=None):
             kw = [[dict(epoch_opts(rng, lo), center_extrema=c) for _ in range(n1)] for _ in range(n0)]
     return dict(sigs=sigs, fs=fs, f_range=(lo, hi), kwargs=kw, kw_kind=kind, axis=axis,
                 return_samples=bool(rng.random() < 0.7), n_jobs=int(rng.choice([1, 2, -1])), api=api,
-                delay_seed=int(rng.integers(0, 1 << 30)))
+                delay_seed=int(rng.integers(0, 1 << 30)),
+                progress=[None, None, 'tqdm', 'tqdm.notebook'][int(rng.integers(0, 4))], fake_tqdm=bool(rng.random() < 0.5))
 
 
 def run(sh):
